@@ -177,6 +177,11 @@ def boundary_inputs():
                                   "x = 2.pow(%s)\n", "x = B2.pow(%s)\n", "x = 1 << %s\n", "x = B1 << %s\n", "x = 2.5.powf(%s)\n", "const c = \"ab\" * %s\nprint c.len()\n",
                                   "x = [\"ab\" * %s]\n", "x = (\"ab\" * %s).len()\n")):
             out.append(("huge-result-%d-%s" % (k, cnt), form % cnt))
+    for k, form in enumerate(("print %s[0]\n", "x = %s[0]\n", "[first] = %s\n", "[a, b] = %s\n", "const p = %s\nprint p[0]\n", "const p = %s\nq = p[0]\nprint q\n", "const p = %s\n[h] = p\n",
+                              "const p = %s\nf = fn() -> int {\n\t[h, t] = p\n\treturn h\n}\n", "const p = %s\nf = fn() {\n\tprint p[0]\n}\n", "print %s[-1]\n", "print %s[0][0]\n",
+                              "print %s.len()\n", "from 0 to %s[0] {\n}\n", "const p = %s\nprint p[1]\n", "const [u] = %s\n")):
+        for ei, empty in enumerate(("[]", "[[]]", "\"\"", "map[str, int] {}", "[[], []]", "[1]", "[1, \"a\"]")):
+            out.append(("empty-literal-%d-%d" % (k, ei), form % empty))
     out += [("huge-int", "x = " + "9" * 400 + "\n"), ("huge-float", "x = " + "9" * 400 + "." + "9" * 400 + "\n"), ("huge-byte", "x = 0b" + "1" * 300 + "\n"),
             ("huge-bigint", "x = B" + "9" * 300 + "\n"), ("hex-overflow", "x = 0x" + "F" * 64 + "\n"), ("unterminated-string", "x = \"abc\n"),
             ("unterminated-block-comment", "### never closed\nx = 1\n"), ("lonely-backslash", "x = \"a\\\"\n"), ("bad-escape", "x = \"a\\qb\"\n"),
@@ -227,7 +232,7 @@ def opener_pair_inputs():
     return out
 
 
-ATOMS = ["true", "false", "nil", "self", "Self", "1", "1.5", "B1", "0b1", "\"s\"", "[1]", "[1, \"a\"]", "map[str, int] {\"k\": 1}", "fn() { }", "fn() -> int { return 1 }",
+ATOMS = ["true", "false", "nil", "self", "Self", "1", "1.5", "B1", "0b1", "\"s\"", "[]", "[[]]", "\"\"", "map[str, int] {}", "[1]", "[1, \"a\"]", "map[str, int] {\"k\": 1}", "fn() { }", "fn() -> int { return 1 }",
          "v", "o", "k", "K", "undeclared", "(v)", "v.x", "k.n", "typeof v"]
 INFIX = ["+", "-", "*", "/", "%", "<", "<=", ">", ">=", "==", "!=", "&&", "||", "^", "&", "|", "xor", "<<", ">>", "is", "?=", "+=", "-=", "*=", "/=", "%=", "="]
 MATRIX_PRE = "class K {\n\tn: int\n\tconstructor(self) {\n\t\tself.n = 1\n\t}\n}\nv = 1\no: int? = nil\nk = K()\n"
@@ -263,7 +268,7 @@ OUTER = ["(%s)", "-%s", "!%s", "get %s", "typeof %s", "%s + 1", "1 + %s", "%s ==
          "fn() -> int { return %s }", "(fn() -> int { return %s })()",
          # a call of the function being defined, with the shape as an argument / next to a function literal argument
          "self(%s)", "self(1, %s)", "self(%s, fn() -> int { return 1 })"]
-INNER = ["true", "nil", "self", "Self", "1", "1.5", "\"s\"", "[1]", "map[str, int] {\"k\": 1}", "fn() { }", "fn() -> int { return 1 }", "fn(n: int) -> int { return n }", "v", "o", "k", "K",
+INNER = ["true", "nil", "self", "Self", "1", "1.5", "\"s\"", "[]", "[[]]", "\"\"", "map[str, int] {}", "[][0]", "[[]][0][0]", "\"\"[0]", "[1]", "map[str, int] {\"k\": 1}", "fn() { }", "fn() -> int { return 1 }", "fn(n: int) -> int { return n }", "v", "o", "k", "K",
          "undeclared", "k.n", "self.n", "lst[0]", "idf(1)", "K()", "(o or 1)", "get o", "typeof v",
          # shapes that are themselves a diagnostic: the error has to travel out of every enclosing shape as a value
          "lst[-1]", "lst[1 - 2]", "lst[1.5]", "lst[B99999999999999999999]", "\"s\"[-1]", "[1, \"a\"][-1]", "k.zz", "idf()", "-\"s\"",
